@@ -6,7 +6,9 @@ AGENT_RW = {'imports': {
     'store.go': {'net/http': MC + '/vhttp', 'os/signal': MC + '/vsignal', 'time': MC + '/vtime'},
     'hooks.go': {'os/exec': MC + '/vexec', 'time': MC + '/vtime'},
     '*': {'time': MC + '/vtime'}}}
-STORE_FILEOPS = [('store', {'fileops': True})]
+# the store package gets the virtual clock as well: record timestamps must not depend on when, in real
+# time, an execution happens to run
+STORE_FILEOPS = [('store', {'fileops': True, 'imports': {'*': {'time': MC + '/vtime'}}})]
 SASL_RW = {'imports': {'*': {'time': MC + '/vtime'}}}
 AGENT_SEQ = {'only_imports': True, 'imports': {'web_session.go': {'time': MC + '/vtime'}}}
 
